@@ -234,6 +234,26 @@ def run(case):
         case.check(d <= tol, "general pose: centre of mass of the pasted particle is off",
                    _mech_even(shape) if 0.2 < np.abs(com_v - com_t).max() < 0.8 else None,
                    err=d, com_err=(com_v - com_t), shape=shape, order=order, scale=scale)
+        if order == 0:
+            # nearest-neighbour reference: world voxel x holds the template voxel nearest to c + R^-1 (x - p)
+            xs = np.stack(np.meshgrid(*[np.arange(n_, dtype=float) for n_ in tshape], indexing="ij"), -1).reshape(-1, 3)
+            loc = R.inv().apply(xs - ppx) + c
+            near = np.abs(loc - np.round(loc)).max(1) > 0.5 - 1e-3          # samples on a rounding boundary
+            idx = np.round(loc).astype(int)
+            inside = np.all((idx >= 0) & (idx < np.asarray(shape)), axis=1)
+            # (scipy's constant mode already returns the fill value for samples beyond the first/last voxel centre:
+            #  that half-voxel rim is not judged; the templates are < 1e-3 of the peak there anyway)
+            rim = inside & ~np.all((loc >= -1e-3) & (loc <= np.asarray(shape) - 1 + 1e-3), axis=1)
+            want0 = np.zeros(len(xs))
+            want0[inside] = tmpl[tuple(idx[inside].T)]
+            dv0 = np.abs(vol.reshape(-1) - want0) / amp
+            # (the pasted fragment is a box of the template's own shape around the molecule: the corners of the
+            #  rotated template outside it are cut, where the stipulated templates are < 1e-3 of their peak)
+            bad0 = int(((dv0 > 2e-3) & ~near & ~rim).sum())
+            case.maxobs("max_general_order0_mismatch_voxels", bad0)
+            case.decided += len(xs) // 16
+            case.check(bad0 == 0, "general pose (order 0): simulated voxels are not the nearest template voxels", None,
+                       n_bad=bad0, n=int(len(xs)), shape=shape, scale=scale)
         if order in (1, 3):
             e = float(np.abs(vol - truth).max()) / amp
             case.maxobs(f"max_general_err_order{order}", e)
